@@ -148,10 +148,20 @@ impl Grid {
         while product(&trailing) > 8 {
             trailing.pop();
         }
+        // many lanes on small grids (size thresholds of per-row processing)
+        if max_trailing >= 1 && nx * ny <= 16 && src.chance(1, 12) {
+            trailing = wide_trailing(src, max_trailing);
+        }
         let lanes = product(&trailing);
         let vc = val_class(src);
         let sc = scale_exp::<T>(src);
-        let mut data = values::<T>(src, nx * ny * lanes, vc, sc);
+        // bulky tables draw their numbers from expanded entropy (the draws behind them are not starved)
+        let mut data = if nx * ny * lanes > 150 {
+            let ent = expand(src, 3 * nx * ny * lanes + 8);
+            values::<T>(&mut Src::new(&ent), nx * ny * lanes, vc, sc)
+        } else {
+            values::<T>(src, nx * ny * lanes, vc, sc)
+        };
         // structured tables: checkerboard / symmetric Toeplitz d[i][j] = f(|i-j|) (equalities between the corners of a cell)
         if src.chance(1, 12) {
             let f: Vec<f64> = (0..nx.max(ny)).map(|_| value::<T>(src, ValClass::SmallInt, 0)).collect();
@@ -182,6 +192,14 @@ impl Grid {
     pub fn build<T: Flt>(&self, extrapolate: bool) -> Result<Box<dyn I2<T>>, Fail> {
         let xo = if self.cx == AxisClass::Index { None } else { Some(crate::layout::realise1(arr_1::<T>(&self.x), self.xlay, T::of(-9.0e9))) };
         let yo = if self.cy == AxisClass::Index { None } else { Some(crate::layout::realise1(arr_1::<T>(&self.y), self.ylay, T::of(-9.0e9))) };
+        // 1 of 10 explicit grids goes through `new_unchecked` (a function of the content)
+        let h = self.data.iter().take(3).fold(self.nx as u64, |h, v| crate::common::splitmix(h ^ v.to_bits()));
+        if xo.is_some() && yo.is_some() && h % 10 == 0 {
+            return match build2_unchecked::<T>(xo.unwrap(), yo.unwrap(), crate::layout::realise(arr_d::<T>(&self.shape(), &self.data), self.lay, T::of(-3.5e5)), self.dd, extrapolate) {
+                Some(i) => Ok(i),
+                None => Err(Fail::new("oracle-bug", "grid not expressible")),
+            };
+        }
         match build2::<T>(xo, yo, crate::layout::realise(arr_d::<T>(&self.shape(), &self.data), self.lay, T::of(-3.5e5)), self.dd, extrapolate) {
             Some(Ok(i)) => Ok(i),
             Some(Err(e)) => Err(Fail::new("build-failed", format!("valid grid rejected: {e}"))),
@@ -195,6 +213,12 @@ impl Grid {
         obs.class(if self.cx == AxisClass::Index && self.cy == AxisClass::Index { "axes:default" } else { "axes:explicit" });
         obs.class(format!("ddim:{}", self.dd.name()));
         obs.class(format!("rank:{}", 2 + self.trailing.len()));
+        if self.lanes >= 32 {
+            obs.class("lanes:32+");
+        }
+        if self.nx.max(self.ny) > 12 {
+            obs.class("grid:13+");
+        }
         obs.class(format!("datalayout:{}", self.lay.0.name()));
     }
     pub fn describe<T: Flt>(&self) -> serde_json::Value {
